@@ -171,6 +171,16 @@ impl ModelGen {
             return Constraint::new(self.affine(r, d), self.cmp(r), num(*r.pick(KS)), name);
         }
         if !self.arith { return Constraint::new(self.affine(r, d), self.cmp(r), self.affine(r, d), name); }
+        // a block that reaches the comparison only through a constant factor or divisor (negative ones flip what the row needs
+        // from the block), on either side of the comparison
+        if r.chance(1, 5) {
+            let blk = match r.below(4) { 0 => Exp::Abs(b(self.affine(r, d))), 1 => Exp::Max(vec![self.affine(r, d), self.affine(r, d)]), 2 => Exp::Min(vec![self.affine(r, d), self.affine(r, d)]),
+                                         _ => Exp::Max(vec![Exp::Min(vec![self.affine(r, d), self.affine(r, d)]), self.affine(r, d)]) };
+            let c = num(*r.pick(&[-1.0, -2.0, 2.0, -0.5, 3.0, -4.0]));
+            let scaled = match r.below(5) { 0 => bin(BinOp::Mul, blk, c), 1 => bin(BinOp::Mul, c, blk), 2 | 3 => bin(BinOp::Div, blk, c), _ => Exp::UnOp(UnOp::Neg, b(bin(BinOp::Div, blk, c))) };
+            let k = num(*r.pick(KS));
+            return if r.chance(2, 3) { Constraint::new(scaled, self.cmp(r), k, name) } else { Constraint::new(k, self.cmp(r), scaled, name) };
+        }
         let l = self.arith(r, d, 2);
         let rr = if r.chance(2, 3) { num(*r.pick(KS)) } else { self.arith(r, d, 1) };
         Constraint::new(l, self.cmp(r), rr, name)
